@@ -5,7 +5,7 @@ from __future__ import annotations
 import re
 import signal
 
-TOKEN_MENU = ["", "abc", "-", "1e999", "99999999999", "*****", "nan", "MULT1000"]
+TOKEN_MENU = ["", "abc", "-", "1e999", "99999999999", "*****", "nan", "MULT1000", "DEC1", "INC1"]
 
 
 class Timeout(BaseException):  # not an Exception: the API wrappers translate every Exception into LoadError
@@ -74,6 +74,10 @@ def token_substitutions(text: str, menu=TOKEN_MENU, max_tokens=None):
                 if not tok.isdigit():
                     continue
                 new = str(int(tok) * 1000 + 7)
+            elif rep in ("DEC1", "INC1"):  # a counter that is off by one (same field width where possible)
+                if not tok.isdigit() or (rep == "DEC1" and int(tok) == 0):
+                    continue
+                new = str(int(tok) + (1 if rep == "INC1" else -1)).rjust(len(tok))
             else:
                 new = rep
             if new == tok:
@@ -91,3 +95,37 @@ def numeric_field_substitutions(text: str, menu=("x", "1e", "-", "999999")):
             continue
         for rep in menu:
             yield ("numeric-field", m.start(), rep), text[: m.start()] + rep + text[m.end() :], m.start()
+
+
+def _shape(line):
+    out = []
+    for tok in line.split():
+        if tok.lstrip("+-").isdigit():
+            out.append("i")
+        else:
+            try:
+                float(tok.replace("D", "E").replace("d", "e"))
+                out.append("f")
+            except ValueError:
+                out.append("w")
+    return tuple(out)
+
+
+def table_row_deletions(text: str, min_rows=2, max_tables=None):
+    """A row missing from a table: for every maximal run of >= min_rows consecutive lines with the same token shape
+    (ints / reals / words per column), delete the first, the middle and the last row (one at a time)."""
+    lines = text.splitlines(keepends=True)
+    shapes = [_shape(ln) for ln in lines]
+    i, ntab = 0, 0
+    while i < len(lines):
+        j = i
+        while j + 1 < len(lines) and shapes[j + 1] == shapes[i] and shapes[i]:
+            j += 1
+        n = j - i + 1
+        if n >= min_rows and shapes[i]:
+            ntab += 1
+            if max_tables is not None and ntab > max_tables:
+                return
+            for r in sorted({i, i + n // 2, j}):
+                yield ("delete-table-row", r), "".join(lines[:r] + lines[r + 1 :])
+        i = j + 1
